@@ -142,7 +142,12 @@ func build(work string) (bin string, ist *instr.Stats) {
 		fatal2("mkdir: %v", err)
 	}
 	ov := filepath.Join(work, "overlay")
-	ist, err := instr.Run(repoDir, ov)
+	src := repoDir
+	if alt := os.Getenv("DSIM_REPO"); alt != "" {
+		// development aid: check a scratch copy of the repository (see tools/seedtest.sh)
+		src = alt
+	}
+	ist, err := instr.RunAs(src, repoDir, ov)
 	if err != nil {
 		fatal2("instrument: %v", err)
 	}
@@ -868,26 +873,26 @@ func check(args []string) int {
 	ev := map[string]any{
 		"property_id": prop, "tier": tier, "seed": seed, "level": "exploration", "wall_s": wall, "violations": nViol,
 		"coverage": map[string]any{
-			"evaluations":         len(all) + len(crashes),
-			"distinct_nontrivial": len(hashes),
-			"rule":                ruleText(prop, plan),
-			"samples":             samples,
-			"runs_by_scenario":    perScen,
-			"runs_per_hour":       int(float64(len(all)) / tRuns.Hours()),
-			"sim_time_total_s":    float64(simNs) / 1e9,
-			"events_total":        events,
-			"yield_steps_total":   steps,
-			"faults_fired":        faults,
-			"probes":              probes,
-			"distinct_states":     len(states),
-			"determinism":         det,
-			"budget_exhausted":    budget,
-			"known_findings":      knownLines,
-			"instrumenter":        map[string]int{"files": ist.Files, "lock_sites": ist.LockSites, "yields": ist.Yields, "go_stmts": ist.GoStmts, "map_rewrites": ist.MapRewrites},
-			"components_real":     "serve loop, handlers, krpc+bencode codec, routing table, token server, transactions, traversal, k-nearest, containers, bep44 wrapper+memory store, in-memory peer store, announce, bootstrap, getput, x/time/rate, chansync, anacrolix/sync",
+			"evaluations":          len(all) + len(crashes),
+			"distinct_nontrivial":  len(hashes),
+			"rule":                 ruleText(prop, plan),
+			"samples":              samples,
+			"runs_by_scenario":     perScen,
+			"runs_per_hour":        int(float64(len(all)) / tRuns.Hours()),
+			"sim_time_total_s":     float64(simNs) / 1e9,
+			"events_total":         events,
+			"yield_steps_total":    steps,
+			"faults_fired":         faults,
+			"probes":               probes,
+			"distinct_states":      len(states),
+			"determinism":          det,
+			"budget_exhausted":     budget,
+			"known_findings":       knownLines,
+			"instrumenter":         map[string]int{"files": ist.Files, "lock_sites": ist.LockSites, "yields": ist.Yields, "go_stmts": ist.GoStmts, "map_rewrites": ist.MapRewrites},
+			"components_real":      "serve loop, handlers, krpc+bencode codec, routing table, token server, transactions, traversal, k-nearest, containers, bep44 wrapper+memory store, in-memory peer store, announce, bootstrap, getput, x/time/rate, chansync, anacrolix/sync",
 			"components_simulated": "UDP socket (SimConn), remote nodes (scripted sim peers), wall clock (testing/synctest), crypto/rand stream, starting nodes, logger (discarded), Go scheduler decisions at instrumented points (yield mode), bucket map iteration order",
-			"tree":                treeID(),
-			"build_s":             tBuild.Seconds(),
+			"tree":                 treeID(),
+			"build_s":              tBuild.Seconds(),
 		},
 		"assumptions": []string{
 			"sampling, not proof: a clean batch is evidence only",
